@@ -385,6 +385,15 @@ static void gen_conv(struct scen *sc, struct rng *r, long c)
 		sc->init_records = 150 + (int)rndn(r, 150); /* responses crossing the 100-PDU store increment */
 		sc->nk = 60;
 	}
+	if (c % 21 == 3) {
+		/* responses that make each of the client's three temporary PDU stores grow several times (the stores grow in
+		 * steps, a slip in the step arithmetic shows from the third or fourth step on) */
+		sc->np = 1000;
+		sc->init_records = 2000 + (int)rndn(r, 1000); /* draws with repetition: some 850-950 distinct records */
+		sc->nk = 320 + (int)rndn(r, MAX_K - 320);
+		sc->init_keys = 4 * sc->nk; /* nearly all of them */
+		CNT("sim/scenarios_with_responses_of_over_300_pdus_per_kind");
+	}
 	if (c % 11 == 5)
 		sc->no_data = true, add_event(&sc->cfg, (time_t)(1 + rndn(r, (uint32_t)span + 1)), 5, 0);
 	if (c % 13 == 6) {
@@ -696,6 +705,12 @@ static void gen_intervals(struct scen *sc, struct rng *r, long c)
 		if (rndp(r, 1, 2))
 			add_event(&sc->cfg, 4 + rndn(r, 20), 2, 0);
 	}
+	if (x % 3 == 1) {
+		/* the application changes the interval mode while the first response is on its way (after the Cache Response,
+		 * somewhere in the payload, or just behind the End of Data) */
+		sc->cfg.mode_switch_at_byte = 8 + (long)rndn(r, rndp(r, 1, 2) ? 4 : 120);
+		sc->cfg.mode_switch_to = (int)((c % 4 + 1 + rndn(r, 3)) % 4);
+	}
 	if (x % 7 == 3) {
 		/* a cache without data: the response is Cache Response + End of Data and nothing else - the intervals in
 		 * that End of Data count all the same */
@@ -762,7 +777,7 @@ static void gen_alloc_base(struct scen *sc, struct rng *r)
 {
 	scen_defaults(sc, r);
 	sc->np = 600;
-	sc->nk = MAX_K;
+	sc->nk = BASE_K;
 	sc->init_records = 380 + (int)rndn(r, 100);
 	sc->init_keys = 400;
 	sc->cfg.refresh = 30 + rndn(r, 50);
